@@ -2,6 +2,7 @@
 #define C18_H
 #include "vsched.h"
 #define C18_MAXOPS 8
+#define C18_OUT 64                /* octets per request buffer (requests of up to 64 octets) */
 #define C18_MAXT 17              /* free-running pass: up to 16 threads; controlled pass: VS_MAXT-1 */
 typedef struct { char code; int arg; } c18_op_t;
 typedef struct {
@@ -13,7 +14,7 @@ typedef struct {
 } c18_prog_t;
 typedef struct {
 	unsigned long ret[C18_MAXT][C18_MAXOPS];
-	unsigned char out[C18_MAXT][C18_MAXOPS][32];
+	unsigned char out[C18_MAXT][C18_MAXOPS][C18_OUT];
 	unsigned char done[C18_MAXT][C18_MAXOPS];
 	int once_runs; int once_seen[C18_MAXT]; int once_ret[C18_MAXT];
 	unsigned long ctr_final;
